@@ -123,14 +123,26 @@ func runC08(c *Ctx) {
 				}
 				r.Add("R2", "socket-write:"+c.FuncKey(fn), c.InstrPos(in), c.FuncKey(fn), "socket data is <line parameter> + CRLF", ok, why)
 			default:
+				if c.socketLifecycleHelper(cc) {
+					return // set-up helper: wraps / handshakes / closes only
+				}
 				r.Add("R2", "socket-use:"+c.FuncKey(fn)+":"+n, c.InstrPos(in), c.FuncKey(fn), "no other function is handed the socket or its writer", false, "socket/writer passed to "+n)
 			}
 		})
 	}
 	r.Exactly("R2", "WriteString sites on the connection writer", nW, 1)
 	if writeFn != nil {
-		// the write function's callers pass a value received from the outbound queue
-		for _, cs := range c.Callers(writeFn) {
+		// the write function's callers pass a value received from the outbound queue (when the socket write sits
+		// in a helper that the write function calls with its own line parameter, look at the callers of that)
+		top := writeFn
+		if sites := c.staticCallers(writeFn); len(sites) == 1 {
+			if up := sites[0].Parent(); up.Package() == c.Client {
+				if leaf, via := c.writerLeaf(up); leaf == writeFn && via != nil {
+					top = up
+				}
+			}
+		}
+		for _, cs := range c.Callers(top) {
 			arg := cs.Common().Args[1]
 			ok := false
 			for _, op := range ChanOps(cs.Parent()) {
@@ -413,6 +425,10 @@ func runC20(c *Ctx) {
 			cc := callOf(in)
 			if cc != nil {
 				n := calleeName(cc)
+				if strings.HasPrefix(n, "fmt.Fprint") && len(cc.Args) > 0 && len(fl.memWriterKeys(cc.Args[0])) > 0 {
+					// formatting into an in-memory buffer is not output; what comes out of the buffer stays labelled (R1)
+					return
+				}
 				if strings.HasPrefix(n, "fmt.Print") || strings.HasPrefix(n, "fmt.Fprint") || strings.HasPrefix(n, "log.") || strings.HasPrefix(n, "(*log.Logger)") || n == "builtin.println" || n == "builtin.print" {
 					nOther++
 					r.Add("R3", "other-logger:"+c.FuncKey(fn)+":"+n, c.InstrPos(in), c.FuncKey(fn), "library logs only through package logging", false, n)
